@@ -264,4 +264,13 @@ def run(repo, tier):
     res.floor('D2', 2)
     from .common import run_clone_pairs
     run_clone_pairs(repo, res, {m for m in repo.modules if m.startswith('photutils.isophote') and '.tests' not in m})
+    from .common import apply_specs
+    apply_specs(repo, res, [
+        ('photutils.isophote.ellipse.Ellipse.fit_image', 'stmt', '(sma, step) = first_isophote.sample.geometry.reset_sma(step)',
+         'the inward sweep starts from the FIRST FITTED isophote (sma0), not from the first-guess geometry'),
+        ('photutils.isophote.ellipse.Ellipse.fit_image', 'stmt', 'first_isophote = isophote_list[0]', 'first fitted isophote'),
+        ('photutils.isophote.integrator._AreaIntegrator.integrate', 'test',
+         '(i1 in self._i_range) and (j1 in self._j_range) and (i2 in self._i_range) and (j2 in self._j_range)',
+         'a sector is sampled only if all four corners of its pixel box lie inside the image (lower corners too: negative indices wrap around)'),
+    ])
     return res
